@@ -83,6 +83,12 @@ def main():
             conds.append(Cond("vf.ch.h_c01", "check_update_target", f"[graph {g}, target {t}] {OPS['check_update_target']}; the cache invariant is preserved", timeout_s=to,
                               env={"GRAPH": g, "TGT": str(t)}, signature=f"{g}:check_update_target"))
         if g in ("diamond", "weak"):
+            # states that per-node restores / clear_state / partial state assignments reach: a node may be outdated while its dependants are up to date
+            for a in (0, 1):
+                conds.append(Cond("vf.ch.h_c01", "check_assign", f"[graph {g}, any input, auto-update {'on' if a else 'off'}, from a state in which outdated flags are NOT closed downwards (per-node restore, clear_state)] "
+                                  + OPS["check_assign"], timeout_s=to, env={"GRAPH": g, "AUTO": str(a), "LOOSE": "1"}, signature=f"{g}:check_assign:loose"))
+            conds.append(Cond("vf.ch.h_c01", "check_update_all", f"[graph {g}, from a state in which outdated flags are NOT closed downwards] {OPS['check_update_all']}", timeout_s=to,
+                              env={"GRAPH": g, "LOOSE": "1"}, signature=f"{g}:check_update_all:loose"))
             for t1, t2 in ([(NC[g] - 1, 0)] if chk.tier == "quick" else [(NC[g] - 1, 0), (1, NC[g] - 2)]):
                 conds.append(Cond("vf.ch.h_c01", "check_update_two", f"[graph {g}, targets {t1} and {t2}] Model.update(a, b): both targets and all their ancestors are up to date with from-scratch values, "
                                   "unrelated nodes untouched; the cache invariant is preserved", timeout_s=to, env={"GRAPH": g, "TGT": str(t1), "TGT2": str(t2)}, signature=f"{g}:check_update_two"))
